@@ -114,7 +114,12 @@ func genEvmWorld(t *rapid.T, cfg worldCfg) chain.World {
 	addrs = append(addrs, zeroAddr, deadAddr, "0x0000000000000000000000000000000000000001", "0x0000000000000000000000000000000000000004", "0x0000000000000000000000000000000000000009", "0x000000000000000000000000000000000000000a")
 	gc := evmgen.GenCfg{Addrs: addrs, CallTargets: targets, NoCtx: cfg.NoCtx, NoGasRead: cfg.NoGasRead, NoCreate: cfg.NoCreate, NoDestruct: cfg.NoDestruct, MaxStmts: 7, Depth: 2}
 	for i := 0; i < n; i++ {
-		p := evmgen.GenProgram(t, gc)
+		var p evmgen.Program
+		if rapid.IntRange(0, 2).Draw(t, "reentrant") == 0 {
+			p = evmgen.GenReentrant(t, gc, poolAddr(i))
+		} else {
+			p = evmgen.GenProgram(t, gc)
+		}
 		c := chain.GenContract{Addr: poolAddr(i), Code: evmgen.CompileHex(p), Nonce: 1}
 		if rapid.Bool().Draw(t, "hasbal") {
 			c.Balance = strconv.FormatUint(rapid.Uint64Range(1, 1000000000).Draw(t, "cbal"), 10)
